@@ -650,7 +650,7 @@ func (rt *RoutingTable) Clean() {
 			// Count entries in prefix.
 			if currentPrefix != rte.RoutingPrefix {
 				currentPrefix = rte.RoutingPrefix
-				rp, ok := rt.getRoutablePrefixConfig(rte.RoutingPrefix.Addr())
+				rp, ok := rt.getRoutablePrefixConfig(rte.DstIP)
 				if ok {
 					currentPrefixMax = rp.EntriesPerPrefix
 				} else {
@@ -678,7 +678,10 @@ func (rt *RoutingTable) sortForCleaning() {
 			switch {
 			case a.RoutingPrefix != b.RoutingPrefix:
 				// Group gossip entries by routing prefix.
-				return a.RoutingPrefix.Addr().Compare(b.RoutingPrefix.Addr())
+				if cmp := a.RoutingPrefix.Addr().Compare(b.RoutingPrefix.Addr()); cmp != 0 {
+					return cmp
+				}
+				return a.RoutingPrefix.Bits() - b.RoutingPrefix.Bits()
 
 			case a.Path.TotalHops != b.Path.TotalHops:
 				// Sort by hop distance to dst.
